@@ -36,6 +36,25 @@ pub fn expn_str(sp: Span) -> Option<String> {
     })
 }
 
+/// Names of all macros in the expansion backtrace of a span, outermost last (e.g. "assert>debug_assert").
+pub fn expn_chain(sp: Span) -> Option<String> {
+    if !sp.from_expansion() {
+        return None;
+    }
+    let names: Vec<String> = sp
+        .macro_backtrace()
+        .filter_map(|d| match d.kind {
+            rustc_span::ExpnKind::Macro(_, name) => Some(name.to_string()),
+            _ => None,
+        })
+        .collect();
+    if names.len() > 1 {
+        Some(names.join(">"))
+    } else {
+        None
+    }
+}
+
 pub fn trunc(mut s: String, n: usize) -> String {
     if s.len() > n {
         let mut cut = n;
